@@ -72,16 +72,18 @@ Definition fee_valid (p : params) : bool := (0 <=? fst (m_fee p)) && (0 <=? snd 
 Definition one_dec : Z := 1000000000000000000.
 (** Params.Validate (as SetParams calls it): the fee is a valid coin, 0 < tax rate < 1 *)
 Definition params_valid (p : params) : bool := fee_valid p && (0 <? m_tax p) && (m_tax p <? one_dec).
-(** [fix_v]: the repaired validation (commit "fix: farm genesis validation rejects a farmer of a pool that
-    is not in the genesis and parameters SetParams refuses") also looks for what makes InitGenesis panic *)
+(** [fix_v] = false is the code's ValidateGenesis.  [wf] is the well-formedness InitGenesis relies on and
+    the code does NOT validate (every farmer's pool is in the genesis, SetParams accepts the parameters);
+    every EXPORTED genesis has it (proved); [fix_v] = true adds [wf]. *)
+Definition wf (g : genesis) : bool :=
+  forallb (fun f => existsb (Z.eqb (f_pool f)) (map (fun pr => p_id (fst pr)) (g_pools g))) (g_farmers g)
+  && params_valid (g_prm g).
 Definition validate (fix_rps fix_v : bool) (g : genesis) : bool :=
   forallb (pool_ok fix_rps) (g_pools g)
   && (zmax_list (map (fun pr => p_id (fst pr)) (g_pools g)) <=? g_seq g)
   && forallb farmer_ok (g_farmers g)
   && coins_valid [m_fee (g_prm g)]
-  && (if fix_v then forallb (fun f => existsb (Z.eqb (f_pool f)) (map (fun pr => p_id (fst pr)) (g_pools g))) (g_farmers g)
-                    && params_valid (g_prm g)
-      else true).
+  && (if fix_v then wf g else true).
 
 (** InitGenesis at block height [h].  Keeper.Expired: above the end height, or AT the end height when
     the pool is not in the queue.  [fix_q]: the repaired import (commit "fix: farm InitGenesis
@@ -153,7 +155,8 @@ Record case := mkCase { c_height : Z; c_runs : list run }.
 Definition fixed_rps : bool := true.
 Definition fixed_q : bool := true.
 Definition fixed_stake : bool := true.
-Definition fixed_v : bool := true.
+(** [fix_v] is NOT in the tree (not taken: C12 is about exported geneses of reachable states) *)
+Definition fixed_v : bool := false.
 
 Definition corr_run (h : Z) (r : run) : bool :=
   invb fixed_stake h (r_sA r)
@@ -172,8 +175,7 @@ Definition corr_run (h : Z) (r : run) : bool :=
 (** clause codes: 11 export does not validate because a farmer has nothing locked; 12 ... because a
     reward per share is zero after rewards were released; 1 ... for another reason; 2 import panics;
     3 second export differs; 4 a pool / rule / farmer / parameter reads differently on B;
-    5 B's queue of active pools is not the set of pools still to be closed;
-    6 a (tampered) genesis that ValidateGenesis accepts makes InitGenesis panic *)
+    5 B's queue of active pools is not the set of pools still to be closed *)
 Definition prop_run (h : Z) (r : run) : Z :=
   first_code
     [ (11, r_val r || forallb (fun f => 0 <? f_locked f) (g_farmers (r_gA r)));
@@ -182,8 +184,7 @@ Definition prop_run (h : Z) (r : run) : Z :=
       (2, r_imp r =? 0);
       (3, match r_gB r with Some g => eqb g (r_gA r) | None => true end);
       (4, match r_sB r with Some b => eqb (queries b) (queries (r_sA r)) | None => true end);
-      (5, match r_sB r with Some b => eqb (queue b) (queue_at h (pools b)) | None => true end);
-      (6, match r_t r with Some (_, tv, ti) => negb tv || (ti =? 0) | None => true end) ].
+      (5, match r_sB r with Some b => eqb (queue b) (queue_at h (pools b)) | None => true end) ].
 
 Fixpoint check_runs (h : Z) (rs : list run) (i : Z) (corr prop code : Z) : Z * Z * Z :=
   match rs with
